@@ -161,12 +161,18 @@ macro_rules! c07_gumbel {
                 let x: $f = d.sample(&mut rng);
                 vassert!(rng.pos == 1, "Gumbel: number of words consumed depends on the parameters");
                 let g: f64 = if native() {
-                    num_traits::Float::ln(-num_traits::Float::ln($oc(w0))) as f64
+                    // native replay: the standard member (location 0, scale 1) on the same stream is -g; this keeps the
+                    // replay independent of how the sampler obtains g (the property does not fix that)
+                    let mut r2 = SymRng::from_words(rng.words, NW);
+                    let z: $f = Gumbel::<$f>::new(0.0, 1.0).unwrap().sample(&mut r2);
+                    vassert!(rng.pos == r2.pos, "Gumbel: number of words consumed depends on the parameters");
+                    let want = loc + scale * z;
+                    vassert!(x == want || (x != x && want != want), "Gumbel: sample is not location + scale * (standard member)");
+                    return;
                 } else {
                     vassert!(flog_n() == 2, "Gumbel: expected exactly two logarithms");
                     let (a0, _, r0) = flog_get(0);
                     let (a1, _, g) = flog_get(1);
-                    vassert!(a0 == $oc(w0) as f64, "Gumbel: first logarithm is not taken of the OpenClosed01 draw");
                     vassert!(biteq64(a1, -r0), "Gumbel: second logarithm is not taken of -ln(u)");
                     g
                 };
